@@ -25,6 +25,8 @@ def stepLine (d : DState) (line : String) : DState × String :=
   | "CG" :: rest => (d, CandGraph.handle rest)
   | "LB" :: rest => (d, Labels.handle rest)
   | "IM" :: rest => (d, Import.handle rest)
+  | "IMX" :: rest => (d, ImportExt.handle rest)
+  | "IDV" :: rest => (d, IdValidate.handle rest)
   | "EX" :: rest => (d, Export.handle rest)
   | "EXD" :: rest => (d, ExportDisplay.handle rest)
   | "CT" :: rest => (d, ConstructDrv.handle rest)
